@@ -209,6 +209,7 @@ struct Pre {
     phase: CPhase,
     debt: f64,
     total: usize,
+    traced: usize,
 }
 
 impl World {
@@ -239,9 +240,9 @@ impl World {
     fn pre(&self, ai: usize) -> Pre {
         let s = &self.arenas[ai];
         match (&s.arena, &s.metrics) {
-            (Some(a), Some(m)) => Pre { phase: cphase(a.collection_phase()), debt: m.allocation_debt(), total: m.total_gc_count() },
-            (None, Some(m)) => Pre { phase: CPhase::Sleeping, debt: m.allocation_debt(), total: m.total_gc_count() },
-            _ => Pre { phase: CPhase::Sleeping, debt: 0.0, total: 0 },
+            (Some(a), Some(m)) => Pre { phase: cphase(a.collection_phase()), debt: m.allocation_debt(), total: m.total_gc_count(), traced: m.verif_counters().traced_gcs },
+            (None, Some(m)) => Pre { phase: CPhase::Sleeping, debt: m.allocation_debt(), total: m.total_gc_count(), traced: m.verif_counters().traced_gcs },
+            _ => Pre { phase: CPhase::Sleeping, debt: 0.0, total: 0, traced: 0 },
         }
     }
 
@@ -343,6 +344,8 @@ impl World {
             debt_after,
             total_before: pre.total,
             total_after,
+            traced_before: pre.traced,
+            traced_after: m.verif_counters().traced_gcs,
             live_blocks: alloc::live_blocks(ai as u32),
             alloc_violations: alloc::take_violations(),
         };
@@ -365,6 +368,9 @@ impl World {
         }
         let mut out = vec![];
         self.arenas[ai].shadow.observe(op, &obs, &mut out);
+        for n in std::mem::take(&mut self.arenas[ai].shadow.notes) {
+            self.cover.bump(format!("monitor|{n}"));
+        }
         for v in out {
             self.violations.push((self.op_index, v, format!("op {ai} {op}")));
         }
@@ -407,7 +413,7 @@ impl World {
             self.arenas.push(ArenaSlot { colors: HashMap::new(), phase: b'Z', arena: Some(arena), metrics: Some(metrics), addr2id: HashMap::new(), shadow: Shadow::new(n) });
             let snap = self.arenas[ai].arena.as_ref().unwrap().verif_snapshot();
             let ph = cphase_of_snapshot(&snap);
-            self.finish_op(ai, &op, "ok".into(), Pre { phase: CPhase::Sleeping, debt: 0.0, total: 0 }, Some(&snap), ph, String::new());
+            self.finish_op(ai, &op, "ok".into(), Pre { phase: CPhase::Sleeping, debt: 0.0, total: 0, traced: 0 }, Some(&snap), ph, String::new());
             return;
         }
         if ai >= self.arenas.len() || self.arenas[ai].arena.is_none() {
@@ -512,14 +518,14 @@ impl World {
                 this.arenas.push(ArenaSlot { colors: HashMap::new(), phase: b'Z', arena: None, metrics: Some(metrics), addr2id: HashMap::new(), shadow: Shadow::new(n) });
                 let snap = mc.verif_snapshot();
                 let ph = cphase_of_snapshot(&snap);
-                this.finish_op(ai, &op_new, "ok".into(), Pre { phase: CPhase::Sleeping, debt: 0.0, total: 0 }, Some(&snap), ph, String::new());
+                this.finish_op(ai, &op_new, "ok".into(), Pre { phase: CPhase::Sleeping, debt: 0.0, total: 0, traced: 0 }, Some(&snap), ph, String::new());
                 this.write_op(ai, &op_enter);
             };
             if kind == Cb::NewCtor {
                 Some(TestArena::new(|mc| {
                     body(self, mc);
                     let mut root = Root { slots: [None; NROOT] };
-                    let pre = Pre { phase: CPhase::Sleeping, debt: 0.0, total: 0 };
+                    let pre = Pre { phase: CPhase::Sleeping, debt: 0.0, total: 0, traced: 0 };
                     let mut cb = CbCtx { mc, fc: None, root: RootRef::Mut(&mut root), temps: vec![], leave_inside: true };
                     self.enter_obs(ai, &op_enter, &cb, pre);
                     self.callback_loop(ai, &mut cb, src);
@@ -530,7 +536,7 @@ impl World {
                 TestArena::try_new::<_, ()>(|mc| {
                     body(self, mc);
                     let mut root = Root { slots: [None; NROOT] };
-                    let pre = Pre { phase: CPhase::Sleeping, debt: 0.0, total: 0 };
+                    let pre = Pre { phase: CPhase::Sleeping, debt: 0.0, total: 0, traced: 0 };
                     let mut cb = CbCtx { mc, fc: None, root: RootRef::Mut(&mut root), temps: vec![], leave_inside: true };
                     self.enter_obs(ai, &op_enter, &cb, pre);
                     self.callback_loop(ai, &mut cb, src);
@@ -564,9 +570,9 @@ impl World {
                 self.arenas.push(ArenaSlot { colors: HashMap::new(), phase: b'Z', arena: None, metrics: Some(metrics), addr2id: HashMap::new(), shadow: Shadow::new(0) });
                 let snap = mc.verif_snapshot();
                 let ph = cphase_of_snapshot(&snap);
-                self.finish_op(ai, &op_new, "ok".into(), Pre { phase: CPhase::Sleeping, debt: 0.0, total: 0 }, Some(&snap), ph, String::new());
+                self.finish_op(ai, &op_new, "ok".into(), Pre { phase: CPhase::Sleeping, debt: 0.0, total: 0, traced: 0 }, Some(&snap), ph, String::new());
                 self.write_op(ai, &op_enter);
-                let pre = Pre { phase: CPhase::Sleeping, debt: 0.0, total: 0 };
+                let pre = Pre { phase: CPhase::Sleeping, debt: 0.0, total: 0, traced: 0 };
                 let mut cb = CbCtx { mc, fc: None, root: RootRef::Absent, temps: vec![], leave_inside: true };
                 self.enter_obs(ai, &op_enter, &cb, pre);
                 self.callback_loop(ai, &mut cb, src);
@@ -818,7 +824,7 @@ impl World {
         let m = cb.mc.metrics();
         let snap = cb.mc.verif_snapshot();
         let _ = ai;
-        Pre { phase: cphase_of_snapshot(&snap), debt: m.allocation_debt(), total: m.total_gc_count() }
+        Pre { phase: cphase_of_snapshot(&snap), debt: m.allocation_debt(), total: m.total_gc_count(), traced: m.verif_counters().traced_gcs }
     }
 
     fn finish_cb(&mut self, ai: usize, cb: &CbCtx<'_, '_>, op: &Op, ret: String, pre: Pre) {
@@ -982,6 +988,7 @@ impl World {
             P::SR(_) | P::WR(_) => Kind::RefNode,
             P::SC(_) | P::WC(_) => Kind::LockCell,
             P::SO(_) | P::WO(_) => Kind::OnceCell,
+            P::SD(_) | P::WD(_) => Kind::DynNode,
         }
     }
 
@@ -992,6 +999,7 @@ impl World {
             P::SR(g) => g.borrow().slots[i],
             P::SC(g) => g.get().v,
             P::SO(g) => g.get().map(|b| b.v),
+            P::SD(g) => g.inner.get(i),
             _ => None,
         }
     }
@@ -1026,6 +1034,13 @@ impl World {
                 let v: OnceCellT<'gc> = OnceLock::new();
                 alloc::expect_gc(t);
                 P::SO(Gc::new(mc, v))
+            }
+            Kind::DynNode => {
+                // (the box is allocated before the Gc block is announced to the allocator)
+                let inner: Box<dyn DynSlots<'gc> + 'gc> = Box::new(DynBody { id: std::cell::Cell::new(t), slots: vals.map(RefLock::new) });
+                let v = DynNode { inner };
+                alloc::expect_gc(t);
+                P::SD(Gc::new(mc, v))
             }
         };
         let consumed = alloc::expect_consumed();
@@ -1201,6 +1216,17 @@ impl World {
                     Path::Raw => unsafe { g.as_ref_cell().borrow_mut().slots[i] = val },
                     _ => unsafe {
                         g.as_ref_cell().borrow_mut().slots[i] = val;
+                        mc.backward_barrier(Gc::erase(g), None);
+                    },
+                },
+                P::SD(g) => match path {
+                    Path::Write => {
+                        let w = Gc::write(mc, g);
+                        unsafe { w.inner.set(i, val) };
+                    }
+                    Path::Raw => unsafe { g.inner.set(i, val) },
+                    _ => unsafe {
+                        g.inner.set(i, val);
                         mc.backward_barrier(Gc::erase(g), None);
                     },
                 },
